@@ -198,7 +198,7 @@ def parse_output(out, res):
             res.violation = 'error'
     if res.violation:
         i = out.find('Error:')
-        res.error_text = out[i:i + 20000]
+        res.error_text = out[i:i + 400000]
     res.prints = parse_prints(out)
     finished = ('Model checking completed' in out) or ('Finished in' in out) or ('Finished computing' in out)
     res.ok = (res.violation is None) and not res.timed_out and finished
